@@ -118,7 +118,17 @@ fn run_real<T: Serialize + DeserializeOwned + Send + BEDLike + Clone>(c: &C) -> 
     Some(out)
 }
 
+/// a chunk size that large may make the sorter ask for memory it cannot get: an allocation failure aborts
+/// the process, so such cases run in a child of the harness
 fn exec(t: &[String]) -> Option<String> {
+    let c = dec(t)?;
+    if c.chunk >= 1 << 28 { return Some(crate::runner::run_in_child("C01", t, &[])); }
+    exec_here(t)
+}
+fn child(t: &[String]) -> String {
+    match std::panic::catch_unwind(|| exec_here(t)) { Ok(Some(s)) => s, Ok(None) => "abort".into(), Err(_) => "panic".into() }
+}
+fn exec_here(t: &[String]) -> Option<String> {
     let c = dec(t)?;
     match c.ty.as_str() {
         "kv" => {
@@ -209,7 +219,7 @@ fn gen(rng: &mut Rng, tier: Tier) -> Vec<Case> {
             }
         }
         for n in [0usize, 1, 2, 5, 50] {
-            for c in [n, n + 1, 1_000_000] { let shape = rng.below(6); push("boundary", C { rev: false, chunk: c, threads: *rng.pick(&threads), comp: *rng.pick(&comps), tmp: rng.chance(1, 2), ty: "kv".into(), border: rng.below(24) + 24 * (if rng.chance(1, 4) { rng.range(1, 2) } else { 0 }), xs: kv(rng, n, shape) }); }
+            for c in [n, n + 1, 1_000_000, 1 << 33, 1 << 40, usize::MAX / 16, usize::MAX] { let shape = rng.below(6); push("boundary", C { rev: false, chunk: c, threads: *rng.pick(&threads), comp: *rng.pick(&comps), tmp: rng.chance(1, 2), ty: "kv".into(), border: rng.below(24) + 24 * (if rng.chance(1, 4) { rng.range(1, 2) } else { 0 }), xs: kv(rng, n, shape) }); }
         }
     }
     let nr = match tier { Tier::Quick => 120, Tier::Thorough => 1500 };
@@ -240,8 +250,8 @@ fn gen(rng: &mut Rng, tier: Tier) -> Vec<Case> {
 pub fn prop() -> PropDef {
     PropDef {
         id: "C01",
-        rule: "corpus, then (a) lengths k*c-1, k*c, k*c+1 for chunk sizes c in {0,1,2,3,7,64} and k <= 4, and chunk sizes n, n+1, 1e6 for n in {0,1,2,5,50}; (b) random inputs of 0-400 records with chunk sizes n/3, n, 1000, 2..60; inputs sorted / reversed / constant key / 3 keys (many ties) / random / with a 9 KiB and a 70 KiB record; record types (key,payload) compared by key only or reversed, GenomicRange (sort with its Ord, and sort_by), BED<6> with optional fields, NarrowPeak with float fields, BedGraph<f64>; threads in {1,2,3,8,16}, compression in {none,0,1,4,9,16}, explicit or default tmp dir; in a quarter of the cases the sorter is used for two sorts and the observed one is the first (second sort run and drained while the first result is unread) or the second (first result drained afterwards); thorough adds inputs of 9e3 to 3e4 records in chunks of 3e3 to 1.2e4 (above rayon's sequential cut-off of 2000). The number of chunks is kept <= 200 (open-file limit). Non-trivial: >= 2 records and (>= 2 runs or a tie under the comparator). Distinct = distinct input token sequence.",
+        rule: "corpus, then (a) lengths k*c-1, k*c, k*c+1 for chunk sizes c in {0,1,2,3,7,64} and k <= 4, and chunk sizes n, n+1, 1e6, 2^33, 2^40, usize::MAX/16, usize::MAX for n in {0,1,2,5,50} (chunk sizes from 2^28 run in a child process); (b) random inputs of 0-400 records with chunk sizes n/3, n, 1000, 2..60; inputs sorted / reversed / constant key / 3 keys (many ties) / random / with a 9 KiB and a 70 KiB record; record types (key,payload) compared by key only or reversed, GenomicRange (sort with its Ord, and sort_by), BED<6> with optional fields, NarrowPeak with float fields, BedGraph<f64>; threads in {1,2,3,8,16}, compression in {none,0,1,4,9,16}, explicit or default tmp dir; in a quarter of the cases the sorter is used for two sorts and the observed one is the first (second sort run and drained while the first result is unread) or the second (first result drained afterwards); thorough adds inputs of 9e3 to 3e4 records in chunks of 3e3 to 1.2e4 (above rayon's sequential cut-off of 2000). The number of chunks is kept <= 200 (open-file limit). Non-trivial: >= 2 records and (>= 2 runs or a tie under the comparator). Distinct = distinct input token sequence.",
         observable: "initial len() and the item sequence as (comparator key, full bincode serialisation) or error items; ties compared as classes",
-        gen, exec, shrink, child: None,
+        gen, exec, shrink, child: Some(child),
     }
 }
